@@ -167,6 +167,75 @@ def motion_case(run, specs, env, R, t, kind, names):
     return ok
 
 
+def deriv_tensor(f, k):
+    """full rank-k tensor of k-th partial derivatives: f(orders) -> array; result shape = shape(f) + (3,)*k"""
+    out = None
+    for idx in itertools.product(range(3), repeat=k):
+        orders = [idx.count(0), idx.count(1), idx.count(2)]
+        a = f(np.array(orders))
+        if out is None:
+            out = np.zeros(a.shape + (3,) * k)
+        out[(Ellipsis,) + idx] = a
+    return out
+
+
+def rotate_tensor(a, R, first_axis, k):
+    """a[..., j1..jk] -> sum_j a[..., j1..jk] R[j1,i1] ... R[jk,ik]   (d/dr_i = sum_j R[j,i] d/dr'_j)"""
+    for m in range(k):
+        a = np.moveaxis(np.tensordot(a, R, axes=([first_axis + m], [0])), -1, first_axis + m)
+    return a
+
+
+def tensor_case(run, specs, env, R, t, kind):
+    """derivative tensors of the basis functions and of the density, gradient / Hessian / stress tensor / Ehrenfest force and
+    Hessian rotate as tensors of their rank"""
+    from gbasis.evals import density as Dn
+    from gbasis.evals import stress_tensor as ST
+    from gbasis.evals.eval_deriv import evaluate_deriv_basis
+    specs2, env2 = move(specs, env, R, t)
+    D = basis_rep(specs, R)
+    b1, b2 = make_basis(specs), make_basis(specs2)
+    nb = sum(s.size for s in specs)
+    g = random_symmetric(run.rng, nb, psd=True)
+    g2 = D.T @ g @ D
+    g2 = (g2 + g2.T) / 2
+    ok = True
+    items = []
+    for k, dt in ((1, "general"), (2, "general"), (2, "direct"), (3, "general")) + ((() if run.tier == "quick" else ((4, "general"),))):
+        items.append((f"evaluate_deriv_basis rank-{k} tensor ({dt})", k, 2,
+                      lambda k=k, dt=dt: deriv_tensor(lambda o: evaluate_deriv_basis(b1, env.points, o, deriv_type=dt), k),
+                      lambda k=k, dt=dt: pf.apply_on_axes(deriv_tensor(lambda o: evaluate_deriv_basis(b2, env2.points, o, deriv_type=dt), k), [D], 1)))
+    for k in (1, 2, 3):
+        items.append((f"evaluate_deriv_density rank-{k} tensor", k, 1,
+                      lambda k=k: deriv_tensor(lambda o: Dn.evaluate_deriv_density(o, g, b1, env.points), k),
+                      lambda k=k: deriv_tensor(lambda o: Dn.evaluate_deriv_density(o, g2, b2, env2.points), k)))
+    items += [
+        ("evaluate_density_gradient", 1, 1, lambda: Dn.evaluate_density_gradient(g, b1, env.points), lambda: Dn.evaluate_density_gradient(g2, b2, env2.points)),
+        ("evaluate_density_hessian", 2, 1, lambda: Dn.evaluate_density_hessian(g, b1, env.points), lambda: Dn.evaluate_density_hessian(g2, b2, env2.points)),
+        ("evaluate_stress_tensor", 2, 1, lambda: ST.evaluate_stress_tensor(g, b1, env.points, alpha=0.3, beta=0.7),
+         lambda: ST.evaluate_stress_tensor(g2, b2, env2.points, alpha=0.3, beta=0.7)),
+        ("evaluate_ehrenfest_force", 1, 1, lambda: ST.evaluate_ehrenfest_force(g, b1, env.points, alpha=0.3, beta=0.7),
+         lambda: ST.evaluate_ehrenfest_force(g2, b2, env2.points, alpha=0.3, beta=0.7)),
+        ("evaluate_ehrenfest_hessian", 2, 1, lambda: ST.evaluate_ehrenfest_hessian(g, b1, env.points, alpha=0.3, beta=0.7),
+         lambda: ST.evaluate_ehrenfest_hessian(g2, b2, env2.points, alpha=0.3, beta=0.7)),
+        ("evaluate_ehrenfest_hessian(symmetric)", 2, 1, lambda: ST.evaluate_ehrenfest_hessian(g, b1, env.points, alpha=1.0, beta=0.25, symmetric=True),
+         lambda: ST.evaluate_ehrenfest_hessian(g2, b2, env2.points, alpha=1.0, beta=0.25, symmetric=True)),
+    ]
+    for name, k, first, f1, f2 in items:
+        a1 = f1()
+        a2 = rotate_tensor(f2(), R, first, k)
+        run.case((kind, name) + sig(specs) + (round(float(R[0, 0]), 6), round(float(t[0]), 6)))
+        run.count("tensor " + name)
+        if a1.shape != a2.shape or np.abs(a1 - a2).max() > 1e-9 * float(np.abs(a1).max()) + 1e-12:
+            run.violation(f"{name} does not rotate as a rank-{k} tensor under the rigid motion ({kind}): max deviation "
+                          f"{np.abs(a1 - a2).max():.3e} of {np.abs(a1).max():.3e}",
+                          {"case": "tensor", "function": name, "basis": core.describe_basis(specs), "R": R.tolist(), "t": list(map(float, t)),
+                           "env": {"points": env.points.tolist(), "charges": env.charges.tolist(), "charge_pos": env.charge_pos.tolist(),
+                                   "origin": env.origin.tolist()}, "kind": kind, "signature": {"kind": "rigid-motion-tensor"}})
+            ok = False
+    return ok
+
+
 def angmom_shift_case(run, specs, d):
     b1 = make_basis(specs)
     b2 = make_basis([s.copy(center=list(np.array(s.center) + d)) for s in specs])
@@ -202,6 +271,9 @@ def check(run):
         for _ in range(2 if quick else 10):
             t = np.array([core.snap(rng.uniform(-3, 3), 8) for _ in range(3)])
             motion_case(run, specs, env, np.eye(3), t, "translation", names)
+        for _ in range(2 if quick else 6):
+            tensor_case(run, specs, env, cayley(rng), np.array([core.snap(rng.uniform(-2, 2), 8) for _ in range(3)]), "orthogonal+translation")
+        tensor_case(run, specs, env, rng.choice(sp), np.zeros(3), "signed-permutation")
         angmom_shift_case(run, specs, np.array([0.5, -1.25, 2.0]))
     for k in range(1 if quick else 4):
         cs = []
@@ -216,6 +288,11 @@ def replay(run, rep):
     specs = specs_from(rep)
     if rep["case"] == "angmom_shift":
         angmom_shift_case(run, specs, np.array(rep["d"]))
+    elif rep["case"] == "tensor":
+        e = rep["env"]
+        env = pf.Env(np.array(e["points"]), np.array(e["charges"]), np.array(e["charge_pos"]), np.array(e["origin"]),
+                     np.array([[1, 0, 0], [0, 1, 0], [0, 0, 1], [2, 0, 1], [0, 0, 0]]))
+        tensor_case(run, specs, env, np.array(rep["R"]), np.array(rep["t"]), rep.get("kind", "orthogonal+translation"))
     else:
         e = rep.get("env")
         env = pf.default_env(run.rng, specs) if e is None else pf.Env(np.array(e["points"]), np.array(e["charges"]), np.array(e["charge_pos"]),
